@@ -593,7 +593,6 @@ class OP_CHECK_TRANSFER_c:
     ensures = ensures_clean
     extends = OPCK
     modifies = STACK_ONLY
-    trusted = True
 
     def inv_(stack):
         return stack_ok(stack)
@@ -603,12 +602,26 @@ class OP_CHECK_TRANSFER_c:
     loops = {0: {'inv': inv_, 'variant': var_}, 1: {'inv': inv_, 'variant': var_}, 2: {'inv': inv_, 'variant': var_}}
 
 
+def ctv_inv(tape, stack, cache, old):
+    """loop over the eight sigfield numbers (treated by invariant: `abstract`)"""
+    return stack_ok(stack) + sigfields_ok(cache) + [
+        ('clean', clean(cache)),
+        ('ks', implies(no_plugins_at_all(old.tape), str_keys_same(old.cache, cache))),
+    ]
+
+
+def ctv_var(i):
+    return 8 - i
+
+
 @contract('functions.OP_CHECK_TEMPLATE')
 class OP_CHECK_TEMPLATE_c:
+    """common op contract (limits, frames, RETURN protocol); what the check_template plugins decide is
+    the embedder's business (A-PLUGIN)"""
     ensures = ensures_clean
-    trusted = True      # TEMPORARY: assumed to meet the common op contract (verification exceeds the budget)
     extends = OPCK
     modifies = ('tape.pointer', 'stack.deque', 'cache')
+    loops = {0: {'inv': ctv_inv, 'variant': ctv_var, 'abstract': True}}
 
     def requires(tape, stack, cache):
         return plugins_ok(tape, SIG_EXT) + plugins_ok(tape, 'check_template')
@@ -617,7 +630,6 @@ class OP_CHECK_TEMPLATE_c:
 @contract('functions.OP_CHECK_TEMPLATE_VERIFY')
 class OP_CHECK_TEMPLATE_VERIFY_c:
     ensures = ensures_clean
-    trusted = True      # TEMPORARY: assumed to meet the common op contract (verification exceeds the budget)
     extends = OPCK
     modifies = ('tape.pointer', 'stack.deque', 'cache')
 
